@@ -197,6 +197,88 @@ pub(crate) mod c10 {
     }
 }
 
+pub(crate) mod c10_keys_and_info {
+    use super::*;
+    use crate::hpke::{Deserializable, KeyRegistry, PrivateKeyOnly};
+    use crate::report::hybrid::HELPER_ORIGIN;
+    use crate::report::hybrid_info::{HybridConversionInfo, HybridImpressionInfo};
+
+    harness! {
+        #[kani::unwind(4)]
+        fn q10_key_lookup_total() {
+            // a record names its key by an attacker-controlled byte: lookup is total, Some iff registered
+            let k = |b: u8| PrivateKeyOnly(match IpaPrivateKey::from_bytes(&[b; 32]) {
+                Ok(k) => k,
+                Err(e) => {
+                    std::mem::forget(e);
+                    kani::assume(false);
+                    unreachable!()
+                }
+            });
+            let reg = KeyRegistry::<PrivateKeyOnly>::from_keys([k(1), k(2)]);
+            let id: u8 = kani::any();
+            assert!(reg.private_key(id).is_some() == (id < 2), "unknown key ids are reported as missing, never a panic");
+            let none = KeyRegistry::<PrivateKeyOnly>::empty();
+            assert!(none.private_key(id).is_none());
+            kani::cover!(id == 2);
+            std::mem::forget(reg);
+        }
+    }
+
+    /// prefix of every HPKE info string: DOMAIN ("private-attribution") then the helper origin
+    fn prefix_len() -> usize {
+        "private-attribution".len() + HELPER_ORIGIN.len()
+    }
+
+    harness! {
+        #[kani::unwind(4)]
+        fn q10_conversion_info_binds_every_field() {
+            // the string fed to HPKE as `info` must contain every metadata field, otherwise tampering with
+            // that field is not detected: layout = prefix | site | key_id | timestamp | epsilon | sensitivity (big endian)
+            let key_id: u8 = kani::any();
+            let ts: u64 = kani::any();
+            let eps: f64 = kani::any();
+            let sens: f64 = kani::any();
+            let info = match HybridConversionInfo::new(key_id, "a.b", ts, eps, sens) {
+                Ok(i) => i,
+                Err(e) => {
+                    std::mem::forget(e);
+                    kani::assume(false);
+                    unreachable!()
+                }
+            };
+            let enc = info.to_enc_bytes();
+            let p = prefix_len();
+            assert!(enc.len() == p + 3 + 1 + 24, "length of the HPKE info");
+            assert!(enc[p] == b'a' && enc[p + 1] == b'.' && enc[p + 2] == b'b', "site domain is bound");
+            assert!(enc[p + 3] == key_id, "key id is bound");
+            let j: usize = kani::any();
+            kani::assume(j < 8);
+            assert!(enc[p + 4 + j] == ts.to_be_bytes()[j], "timestamp is bound");
+            assert!(enc[p + 12 + j] == eps.to_bits().to_be_bytes()[j], "epsilon is bound");
+            assert!(enc[p + 20 + j] == sens.to_bits().to_be_bytes()[j], "sensitivity is bound");
+            kani::cover!(true);
+            std::mem::forget(enc);
+            std::mem::forget(info);
+        }
+    }
+
+    harness! {
+        #[kani::unwind(4)]
+        fn q10_impression_info_binds_key_id() {
+            let key_id: u8 = kani::any();
+            let enc = HybridImpressionInfo::new(key_id).to_enc_bytes();
+            let p = prefix_len();
+            assert!(enc.len() == p + 1 && enc[p] == key_id, "key id is bound into the HPKE info");
+            let j: usize = kani::any();
+            kani::assume(j < "private-attribution".len());
+            assert!(enc[j] == "private-attribution".as_bytes()[j], "domain separation prefix");
+            kani::cover!(true);
+            std::mem::forget(enc);
+        }
+    }
+}
+
 pub(crate) mod c11 {
     use super::*;
 
